@@ -497,23 +497,11 @@ def _activate_plugin_worlds() -> Iterator[None]:
 
 @contextmanager
 def _force_jax_x64(enable_double_precision: bool) -> Iterator[None]:
-    read_config = jax.config.read if hasattr(jax.config, "read") else None
-    if callable(read_config):
-        previous = bool(read_config("jax_enable_x64"))
-    else:
-        previous = (
-            bool(jax.config.jax_enable_x64)
-            if hasattr(jax.config, "jax_enable_x64")
-            else False
-        )
-    target = bool(enable_double_precision)
-    if previous != target:
-        jax.config.update("jax_enable_x64", target)
-    try:
+    enable_x64 = getattr(jax, "enable_x64", None)
+    if enable_x64 is None:
+        from jax.experimental import enable_x64
+    with enable_x64(bool(enable_double_precision)):
         yield
-    finally:
-        if previous != target:
-            jax.config.update("jax_enable_x64", previous)
 
 
 def _create_ir_context(
